@@ -1,6 +1,7 @@
 package main
 
 import (
+	"math/big"
 	"os"
 	"runtime/debug"
 	"fmt"
@@ -99,6 +100,14 @@ func NewUniverse() *Universe {
 	u.decl("iabs", "(define-fun iabs ((a Int)) Int (ite (>= a 0) a (- a)))")
 	u.decl("imax", "(define-fun imax ((a Int) (b Int)) Int (ite (>= a b) a b))")
 	u.decl("imin", "(define-fun imin ((a Int) (b Int)) Int (ite (<= a b) a b))")
+	{
+		// pow2(k) for 0 <= k <= 64 (1 otherwise; uses are guarded by a range obligation)
+		t := "1"
+		for k := 64; k >= 1; k-- {
+			t = fmt.Sprintf("(ite (= k %d) %s %s)", k, new(big.Int).Lsh(big.NewInt(1), uint(k)).String(), t)
+		}
+		u.decl("pow2", "(define-fun pow2 ((k Int)) Int "+t+")")
+	}
 	for _, w := range []struct {
 		n      string
 		lo, hi string
